@@ -102,6 +102,10 @@ def run(ctx, res):
                 "sets differ from the CVRs; non-trivial = selection non-empty and not all cards, distinct by (numbers, styles, sizes, prev)")
     res.samples = [S.cs_case_json(c) for c in cases[-2:]] + [S.hist_case_json(c) for c in hcases[:2]]
     res.stats = stats
+    # regenerated tie: whole-function skeletons of has_contest / consistent_sampling / assign_sample_nums / mvrs_to_data /
+    # set_p_values; lemmas identify their line-by-line reading with Sampling.v (coq/gen/GenProofs_sampling_skeletons.v)
+    from . import genarith
+    genarith.regenerate(ctx.pid, "sampling_skeletons", res)
     res.assumptions = ["SHA-256 / cryptorandom.int_from_hash are trusted (the stream is recomputed with hashlib and compared)",
                        "contests dict key == Contest.id (as Contest.from_dict_of_dicts builds it); Python's sort is stable",
                        "the assorter value of a (mvr, cvr) pair is an abstract function in the model (Section variable f); "
